@@ -56,18 +56,42 @@ Definition msg_print (m : pmsg) : bytes := L_marker ++ pm_name m ++ flat_map att
 Definition item_print (i : item) : bytes := match i with IMsg m => msg_print m | IText s => s end.
 
 (* TestRegistry::runAllTests with strict name filters (-sn): a test runs iff there is no filter or its name equals one of them
-   (UtestShell::shouldRun / TestFilter::match); the group callbacks do not depend on the filters *)
+   (UtestShell::shouldRun / TestFilter::match); the group callbacks do not depend on the filters.
+   Run options: with "run ignored tests" (-ri, TestRegistry::setRunIgnored) the loop calls test->setRunIgnored() on every shell
+   BEFORE anything is reported about it.  UtestShell::setRunIgnored is empty; IgnoredUtestShell::setRunIgnored sets runIgnored_,
+   after which willRun / runOneTest / getMacroName are those of UtestShell: the shell is a normal test from then on (the flag
+   stays set on later passes over the registry). *)
+Definition unignore (t : test) : test :=
+  {| t_group := t_group t; t_name := t_name t; t_file := t_file t; t_line := t_line t; t_ignored := false; t_body := t_body t |}.
+Definition arm (ri : bool) (t : test) : test := if ri then unignore t else t.     (* if (runIgnored_) test->setRunIgnored(); *)
 Definition selected (fs : list bytes) (t : test) : bool :=
   match fs with [] => true | _ => existsb (bytes_eqb (t_name t)) fs end.
 Definition sel_events (fs : list bytes) (t : test) : list ev := if selected fs t then test_events t else [].
-Fixpoint reg_loop_sel (fs : list bytes) (groupStart : bool) (ts : list test) : list ev :=
+Fixpoint reg_loop_sel (ri : bool) (fs : list bytes) (groupStart : bool) (ts : list test) : list ev :=
   match ts with
   | [] => []
   | t :: rest =>
-      (if groupStart then [EGroupStart t] else []) ++ sel_events fs t ++
-      (if end_of_group t rest then EGroupEnd :: reg_loop_sel fs true rest else reg_loop_sel fs false rest)
+      let t' := arm ri t in
+      (if groupStart then [EGroupStart t'] else []) ++ sel_events fs t' ++
+      (if end_of_group t' rest then EGroupEnd :: reg_loop_sel ri fs true rest else reg_loop_sel ri fs false rest)
   end.
-Definition events_sel (fs : list bytes) (ts : list test) : list ev := reg_loop_sel fs true ts.
+Definition events_sel (ri : bool) (fs : list bytes) (ts : list test) : list ev := reg_loop_sel ri fs true ts.
+(* the body of a scripted test is executed (Utest::run reaches testBody) once per pass iff the shell is selected and, as armed,
+   not ignored; the harness counts the executions *)
+Definition exec_count (fs : list bytes) (t' : test) : N := if selected fs t' && negb (t_ignored t') then 1 else 0.
+Definition pass_exec (ri : bool) (fs : list bytes) (ts : list test) : list N := map (fun t => exec_count fs (arm ri t)) ts.
+(* CommandLineTestRunner::runAllTests: `passes` runs over the same registry and the same output object (-r<n>); the shells keep
+   what setRunIgnored did to them *)
+Fixpoint passes_events (ri : bool) (fs : list bytes) (passes : nat) (ts : list test) : list ev :=
+  match passes with
+  | O => []
+  | S k => events_sel ri fs ts ++ passes_events ri fs k (map (arm ri) ts)
+  end.
+Fixpoint passes_exec (ri : bool) (fs : list bytes) (passes : nat) (ts : list test) : list N :=
+  match passes with
+  | O => []
+  | S k => pass_exec ri fs ts ++ passes_exec ri fs k (map (arm ri) ts)
+  end.
 
 (* the writer's members: currtest_, currGroup_, groupOpen_ (the last one added by the repair of D15) *)
 Record tcst := { c_test : option test; c_group : bytes; c_open : bool }.
@@ -115,15 +139,22 @@ Fixpoint tc_items (st : tcst) (es : list ev) : list item :=
   | [] => []
   | e :: r => let '(st', out) := tc_step st e in out ++ tc_items st' r
   end.
-Definition render_with (fs : list bytes) (ts : list test) : bytes := flat_map item_print (tc_items tc_init (events_sel fs ts)).
+Definition render_with (ri : bool) (passes : nat) (fs : list bytes) (ts : list test) : bytes :=
+  flat_map item_print (tc_items tc_init (passes_events ri fs passes ts)).
 End Writer.
 
-Record scenario := { s_dur : N; s_filters : list bytes; s_tests : list test }.
-Definition obs := bytes.      (* everything handed to printBuffer, in order *)
-Definition render_tc (dur : N) (fs : list bytes) (ts : list test) : bytes := render_with Esc true dur fs ts.
-Definition run (s : scenario) : obs := render_tc (s_dur s) (s_filters s) (s_tests s).
-Definition run_old_path (s : scenario) : obs := render_with Raw true (s_dur s) (s_filters s) (s_tests s).    (* before the repair of D15 (1) *)
-Definition run_old_group (s : scenario) : obs := render_with Esc false (s_dur s) (s_filters s) (s_tests s).  (* before the repair of D15 (2) *)
+Record scenario := { s_dur : N; s_ri : bool; s_passes : nat; s_filters : list bytes; s_tests : list test }.
+(* everything handed to printBuffer, in order; and for every pass, for every registered test in order, how often its body was executed *)
+Record obs := { o_stream : bytes; o_exec : list N }.
+Definition add_text (o : obs) (trailer : bytes) : obs := {| o_stream := o_stream o ++ trailer; o_exec := o_exec o |}.
+Definition render_tc (dur : N) (ri : bool) (passes : nat) (fs : list bytes) (ts : list test) : bytes := render_with Esc true dur ri passes fs ts.
+Definition run_exec (s : scenario) : list N := passes_exec (s_ri s) (s_filters s) (s_passes s) (s_tests s).
+Definition run (s : scenario) : obs :=
+  {| o_stream := render_tc (s_dur s) (s_ri s) (s_passes s) (s_filters s) (s_tests s); o_exec := run_exec s |}.
+Definition run_old_path (s : scenario) : obs :=     (* before the repair of D15 (1) *)
+  {| o_stream := render_with Raw true (s_dur s) (s_ri s) (s_passes s) (s_filters s) (s_tests s); o_exec := run_exec s |}.
+Definition run_old_group (s : scenario) : obs :=    (* before the repair of D15 (2) *)
+  {| o_stream := render_with Esc false (s_dur s) (s_ri s) (s_passes s) (s_filters s) (s_tests s); o_exec := run_exec s |}.
 
 (* scenarios the harness can hand to the real code: numbers are size_t, strings are C strings; text printed by test bodies
    (UT_PRINT) is copied into the stream as it is and is outside the property *)
@@ -296,59 +327,74 @@ Fixpoint take_failures (t : test) (fs : list (bytes * N * bytes)) (ms : list mes
                | [] => None
                end
   end.
-Definition test_failures (t : test) : list (bytes * N * bytes) := if t_ignored t then [] else all_failures (t_body t).
+(* "the test is run": it is not an IGNORE_TEST, or ignored tests are run (-ri) *)
+Definition runs (ri : bool) (t : test) : bool := negb (t_ignored t) || ri.
+Definition test_failures (ri : bool) (t : test) : list (bytes * N * bytes) := if runs ri t then all_failures (t_body t) else [].
+Definition is_flag (t : test) (m : message) : bool := is_msg L_testIgnored m && attr_is L_name m (t_name t).
 
-(* the messages of one test: started, ignored iff the test is ignored, one failed per failure in order, finished *)
-Definition take_test (t : test) (ms : list message) : option (list message) :=
+(* the messages of one test and the observed number of executions c of its body in this pass: started; then the test is flagged
+   (testIgnored naming it) iff it is ignored and NOT run; a flagged test's body was not executed and it has no testFailed message,
+   any other test's body was executed once and it has one testFailed per failure in order; finished *)
+Definition take_test (ri : bool) (t : test) (c : N) (ms : list message) : option (list message) :=
   match ms with
   | m :: r =>
       if is_msg L_testStarted m && attr_is L_name m (t_name t) then
-        let after_ign :=
-          if t_ignored t then
-            match r with
-            | i :: r' => if is_msg L_testIgnored i && attr_is L_name i (t_name t) then Some r' else None
-            | [] => None
-            end
-          else Some r in
-        match after_ign with
-        | Some r1 =>
-            match take_failures t (test_failures t) r1 with
-            | Some (e :: r2) => if is_msg L_testFinished e && attr_is L_name e (t_name t) then Some r2 else None
-            | _ => None
-            end
-        | None => None
-        end
+        let '(flagged, r1) := match r with
+                              | i :: r' => if is_flag t i then (true, r') else (false, r)
+                              | [] => (false, r)
+                              end in
+        if Bool.eqb flagged (negb (runs ri t)) && (c =? (if flagged then 0 else 1)) then
+          match take_failures t (if flagged then [] else all_failures (t_body t)) r1 with
+          | Some (e :: r2) => if is_msg L_testFinished e && attr_is L_name e (t_name t) then Some r2 else None
+          | _ => None
+          end
+        else None
       else None
   | [] => None
   end.
-Fixpoint take_tests (g : list test) (ms : list message) : option (list message) :=
+(* the tests of one group against the execution counts (one count per registered test, selected or not) and the messages (only the
+   selected tests have any; the body of a test that is not selected is not executed) *)
+Fixpoint take_tests (ri : bool) (fs : list bytes) (g : list test) (cs : list N) (ms : list message) : option (list N * list message) :=
   match g with
-  | [] => Some ms
-  | t :: r => match take_test t ms with Some ms' => take_tests r ms' | None => None end
+  | [] => Some (cs, ms)
+  | t :: r =>
+      match cs with
+      | c :: cr =>
+          if selected fs t then
+            match take_test ri t c ms with Some ms' => take_tests ri fs r cr ms' | None => None end
+          else if c =? 0 then take_tests ri fs r cr ms else None
+      | [] => None
+      end
   end.
 Definition group_name (g : list test) : bytes := match g with t :: _ => t_group t | [] => [] end.
 (* the messages of one group (maximal run of consecutive registered tests with the same group name): the bracket is there even
-   when the filters select none of its tests; inside it, the tests that run *)
-Definition take_suite (fs : list bytes) (g : list test) (ms : list message) : option (list message) :=
+   when the filters select none of its tests; inside it, the tests that the filters select *)
+Definition take_suite (ri : bool) (fs : list bytes) (g : list test) (cs : list N) (ms : list message) : option (list N * list message) :=
   match ms with
   | m :: r =>
       if is_msg L_testSuiteStarted m && attr_is L_name m (group_name g) then
-        match take_tests (filter (selected fs) g) r with
-        | Some (e :: r2) => if is_msg L_testSuiteFinished e && attr_is L_name e (group_name g) then Some r2 else None
+        match take_tests ri fs g cs r with
+        | Some (cs', e :: r2) => if is_msg L_testSuiteFinished e && attr_is L_name e (group_name g) then Some (cs', r2) else None
         | _ => None
         end
       else None
   | [] => None
   end.
-Fixpoint faithful (fs : list bytes) (gs : list (list test)) (ms : list message) : bool :=
+Fixpoint faithful (ri : bool) (fs : list bytes) (gs : list (list test)) (cs : list N) (ms : list message) : bool :=
   match gs with
-  | [] => match ms with [] => true | _ => false end
-  | g :: r => match take_suite fs g ms with Some ms' => faithful fs r ms' | None => false end
+  | [] => match cs, ms with [], [] => true | _, _ => false end
+  | g :: r => match take_suite ri fs g cs ms with Some (cs', ms') => faithful ri fs r cs' ms' | None => false end
   end.
 
-Definition spec_msgs (fs : list bytes) (ts : list test) (ms : list message) : bool := balanced ms && faithful fs (segments ts) ms.
+(* the groups of `passes` passes over the registry, one pass after the other *)
+Definition pass_groups (passes : nat) (ts : list test) : list (list test) := concat (repeat (segments ts) passes).
+Definition spec_msgs (ri : bool) (passes : nat) (fs : list bytes) (ts : list test) (cs : list N) (ms : list message) : bool :=
+  balanced ms && faithful ri fs (pass_groups passes ts) cs ms.
 Definition spec (s : scenario) (o : obs) : bool :=
-  match tc_parse o with Some ms => spec_msgs (s_filters s) (s_tests s) ms | None => false end.
+  match tc_parse (o_stream o) with
+  | Some ms => spec_msgs (s_ri s) (s_passes s) (s_filters s) (s_tests s) (o_exec o) ms
+  | None => false
+  end.
 
 (* the parser alone, for comparing it with an independent decoder on arbitrary byte strings *)
 Definition parse_result (s : bytes) : option (list (bytes * list (bytes * bytes))) :=
@@ -379,8 +425,8 @@ Fixpoint no_raw_special_go (esc : bool) (s : bytes) : bool :=
   end.
 Definition no_raw_special (s : bytes) : bool := no_raw_special_go false s.
 
-(* the messages the property demands of a run: per group a suite bracket, per test a test bracket with the ignored flag
-   and one failed message per failure *)
+(* the messages the property demands of a run: per pass and group a suite bracket, per selected test a test bracket with the
+   ignored flag iff the test is ignored and not run, and one failed message per failure of a test that is run *)
 Definition mk_named (kind nm : bytes) : message := {| m_name := kind; m_attrs := [(L_name, nm)] |}.
 Definition failure_text (t : test) (file : bytes) (line : N) : bytes :=
   (if negb (bytes_eqb (t_file t) file) || (line <? t_line t)
@@ -388,13 +434,17 @@ Definition failure_text (t : test) (file : bytes) (line : N) : bytes :=
 Definition failure_msg (t : test) (f : bytes * N * bytes) : message :=
   let '(file, line, msg) := f in
   {| m_name := L_testFailed; m_attrs := [(L_name, t_name t); (L_message, failure_text t file line); (L_details, msg)] |}.
-Definition test_msgs (dur : N) (t : test) : list message :=
-  mk_named L_testStarted (t_name t) :: (if t_ignored t then [mk_named L_testIgnored (t_name t)] else [])
-  ++ map (failure_msg t) (test_failures t)
-  ++ [{| m_name := L_testFinished; m_attrs := [(L_name, t_name t); (L_duration, dec (if t_ignored t then 0 else dur))] |}].
-Definition suite_msgs (dur : N) (fs : list bytes) (g : list test) : list message :=
-  mk_named L_testSuiteStarted (group_name g) :: flat_map (test_msgs dur) (filter (selected fs) g) ++ [mk_named L_testSuiteFinished (group_name g)].
-Definition messages_of (dur : N) (fs : list bytes) (ts : list test) : list message := flat_map (suite_msgs dur fs) (segments ts).
+Definition test_msgs (dur : N) (ri : bool) (t : test) : list message :=
+  mk_named L_testStarted (t_name t) :: (if runs ri t then [] else [mk_named L_testIgnored (t_name t)])
+  ++ map (failure_msg t) (test_failures ri t)
+  ++ [{| m_name := L_testFinished; m_attrs := [(L_name, t_name t); (L_duration, dec (if runs ri t then dur else 0))] |}].
+Definition suite_msgs (dur : N) (ri : bool) (fs : list bytes) (g : list test) : list message :=
+  mk_named L_testSuiteStarted (group_name g) :: flat_map (test_msgs dur ri) (filter (selected fs) g) ++ [mk_named L_testSuiteFinished (group_name g)].
+Definition messages_of (dur : N) (ri : bool) (passes : nat) (fs : list bytes) (ts : list test) : list message :=
+  flat_map (suite_msgs dur ri fs) (pass_groups passes ts).
+(* the executions of test bodies the property demands of a run: per pass, per registered test, once iff selected and run *)
+Definition exec_of (ri : bool) (passes : nat) (fs : list bytes) (ts : list test) : list N :=
+  flat_map (map (fun t => if selected fs t && runs ri t then 1 else 0)) (pass_groups passes ts).
 
 (* what a decoder must return for a printed message *)
 Definition seg_dec (x : seg) : bytes := match x with Raw s => s | Esc s => s end.
